@@ -6,19 +6,25 @@ REGISTRATION = {
     "engine": "lean-stream",
     "technique": "Lean 4 proof over a model of the response paths + differential correspondence through the real router",
     "category": "proof",
-    "text": "Kernel-checked theorems over a Lean model of GenerateHandler/ChatHandler (runner callback, channel, "
-            "NDJSON stream vs non-stream aggregation, the streaming tool-call buffer), the OpenAI ChatWriter/"
-            "CompleteWriter and api.Client.stream, for every chunk list: stream concatenation = non-stream reply, "
-            "re-splitting does not change the reply, OpenAI content = native content, exactly one final message or "
-            "error. Model = code is checked on every request shape x every split of a set of outputs x failure "
-            "points through the real gin router with a scripted runner, and the property itself is evaluated on "
-            "the real responses.",
+    "text": "Kernel-checked theorems over a Lean model of GenerateHandler/ChatHandler end to end (runner callback, channel, "
+            "NDJSON stream vs non-stream aggregation, the streaming tool-call buffer, every point at which the runner can "
+            "fail: scheduler/load, Detokenize of a supplied context, Tokenize in chatPrompt, Completion after k chunks, "
+            "Tokenize for the context field after the done chunk), the OpenAI ChatWriter/CompleteWriter and "
+            "api.Client.stream, for every chunk list: stream concatenation = non-stream reply, re-splitting does not "
+            "change the reply, streamed and non-streamed requests fail together with the same error, OpenAI content = "
+            "native content, exactly one final message or one error, api.Client delivers what is on the wire. Model = code "
+            "is checked on 38 request shapes x every split of a set of outputs x endings x fault points through the real "
+            "gin router with a scripted runner, and the property itself is evaluated on the real responses; the "
+            "DoneReason strings are regenerated from the real method on every run and re-checked by decide.",
     "design_ref": "DESIGN.md §5 C17",
     "note": COMMON_NOTE + "Modelled, not verified: parseToolCalls is a parameter whose observed values (real function, "
-            "every concatenation of consecutive chunks) are supplied per case; Tokenize is the harness tokenizer; JSON "
-            "encoding/decoding of the bodies and gin's writer are exercised by the tie, not modelled; chunks are valid "
-            "UTF-8 (the runner guarantees it); request binding/validation, scheduling and client disconnects are out "
-            "of scope.",
+            "every concatenation of consecutive chunks) are supplied per case (tools equivalence is proved under the "
+            "decidable guard PrefixStable; false without it: F17a/b); Tokenize/Detokenize are the harness's (s -> [len s], "
+            "fixed text) and a fault makes a method fail for the whole request; JSON encoding/decoding of the bodies and "
+            "gin's writer are exercised by the tie, not modelled; chunks are valid UTF-8 (the runner guarantees it); request "
+            "binding/validation, scheduling beyond 'returns the runner or an error', options (handed to the runner "
+            "untouched; varied by the generator) and client disconnects are out of scope. Theorems about the repaired "
+            "variants (proposed_fixes/C17-*.patch) concern code that is not in /repo unless VARIANT says so.",
 }
 
 MODULES = ["OllamaVerif.Properties.C17", "OllamaVerif.Tie.C17"]
@@ -106,9 +112,11 @@ def run(ctx):
         level="proof",
         rule="14 fixed + seeded random model outputs (plain text, JSON, tool calls, nested/array calls, unicode, empty "
              "pieces) x all 2^(n-1) splits up to the tier's n (sampled beyond) x endings (done chunk, done chunk with "
-             "content, runner error after k chunks, nil return without done) x 29 request shapes (generate/chat, "
+             "content, runner error after k chunks, nil return without done) x 38 request shapes (generate/chat, "
              "stream true/false/absent, raw, format, tools, /v1/chat/completions and /v1/completions with stream and "
-             "include_usage, api.Client); distinct = distinct oracle command lines",
+             "include_usage, api.Client) x fault points outside Completion (load, Detokenize, Tokenize) with request "
+             "shapes that reach them (generate with context, chat with earlier turns), options/system/stop varied; "
+             "corpus/C17 first; distinct = distinct oracle command lines",
         explanation="Lean theorems about the model of the handlers' aggregation and the OpenAI writers; model tied to "
                     "the code by exact comparison of canonicalised real HTTP bodies with the oracle (L1) and the "
                     "property predicates evaluated on the real bodies (L2)")
